@@ -38,6 +38,8 @@ EXTENDS IrcMsgOps, Naturals, FiniteSets, TLC
 CONSTANTS Kinds,       \* subset of {"raw", "cmd", "whois"}
           HeadTokens,  \* tokens of prefix / command strings (raw, whois server)
           MaxPfxLen, MaxCmdLen,
+          CrossHeads,  \* BOOLEAN: raw cases combine every prefix with every command
+                       \* (FALSE: a raw case with a prefix has a benign command, <<3>> or <<KW>>)
           ArgTokens,   \* tokens of argument strings
           MaxArgs, MaxLen,
           Variants     \* subset of {"pinned", "fixed", "strict"}
@@ -141,7 +143,7 @@ Init == /\ variant \in Variants /\ stage = "head" /\ cs = C0 /\ P = P0 /\ bad = 
 
 ChooseHead(kind, hp, p, hc, c) ==
   /\ stage = "head" /\ kind \in Kinds
-  /\ CASE kind = "raw"   -> hc /\ (hp \/ p = <<>>)
+  /\ CASE kind = "raw"   -> hc /\ (hp \/ p = <<>>) /\ (CrossHeads \/ ~hp \/ c \in {<<3>>, <<KW>>})
        [] kind = "cmd"   -> ~hp /\ p = <<>> /\ hc /\ c = <<KW>>
        [] kind = "whois" -> ~hp /\ p = <<>> /\ (hc \/ c = <<>>)
   /\ cs' = [kind |-> kind, hp |-> hp, p |-> p, hc |-> hc, c |-> c, args |-> <<>>]
